@@ -20,6 +20,7 @@ func C06(c *Ctx) {
 	r.Rule("R06.1", "same height: in processExecuteEvent the height given to setTimeoutList, getTimeoutIBTPsMap and setTimeoutRollback is the same block-header number; the registration height is height + uint64(ibtp.TimeoutHeight) with that height.")
 	r.Rule("R06.2", "registration guards: the timeout-list registration of a request is reachable only for requests (Category == REQUEST) that are not group members (Group == nil), not invalid, not begin-failed, with TimeoutHeight > 0 and below the overflow bound.")
 	r.Rule("R06.3", "removal on receipt: in the receipt branch of setTimeoutList every path on which the stored record was found and decoded reaches the removal-map update before the next transaction is looked at (no early continue for finished records).")
+	r.Rule("R06.8", "removal only by an accepted receipt, under the group's id: in setTimeoutList the removal-map update lies behind the edges 'not invalid' and 'not begin-failed' of the receipt transaction (a rejected receipt must leave the request listed); in the transaction manager every add / remove of a timeout-list entry names the id of the group record (the argument of GlobalTxInfoKey in the same function, or the parameter that callers fill with it) and the height stored in that record.")
 	r.Rule("R06.4", "write before flush: every ledger write of block post-processing (setTimeoutList, setTimeoutRollback, transaction application) is sequenced before FlushDirtyData; nothing writes between FlushDirtyData and PersistBlockData.")
 	r.Rule("R06.5", "expiry applies the list of the current height only: setTimeoutRollback and getTimeoutIBTPsMap iterate getTimeoutList(height) with their own height parameter; the timeout functions read no executor field other than ledger/config/logger (nothing in memory across restarts).")
 	r.NotDecided = append(r.NotDecided, "'exactly once in that block's notifications' over restarts beyond 'state is ledger-borne'; numeric adequacy of the overflow guard")
@@ -123,8 +124,36 @@ func C06(c *Ctx) {
 		}
 		return false, 0
 	})
+	isRem := func(in ssa.Instruction) bool {
+		for _, x := range remUpd {
+			if x == in {
+				return true
+			}
+		}
+		return false
+	}
 	for _, pn := range []string{"invalidMap", "failMap"} {
 		pname := pn
+		// R06.8: only an accepted receipt takes its request out of the list
+		es := condEdges(stl, func(f core.Fact, ifi *ssa.If) (bool, int) {
+			if f.Kind != core.FBool {
+				return false, 0
+			}
+			hit := false
+			core.Mentions(f.Subject, func(v ssa.Value) bool {
+				if lk, ok := v.(*ssa.Lookup); ok {
+					if p, ok := core.Strip(lk.X).(*ssa.Parameter); ok && p.Name() == pname {
+						hit = true
+					}
+				}
+				return false
+			})
+			if hit {
+				return true, 1 - holdsEdge(f)
+			}
+			return false, 0
+		})
+		c.behindEdges("R06.8", "setTimeoutList", stl, es, isRem, "!"+pname+"[txHash]", "timeout-list removal")
 		guard("!"+pname+"[txHash]", func(f core.Fact, ifi *ssa.If) (bool, int) {
 			if f.Kind != core.FBool {
 				return false, 0
@@ -182,6 +211,7 @@ func C06(c *Ctx) {
 	})
 
 	c.timeoutListInvariant("R06.3", "R06.6", "R06.7")
+	c.timeoutListIdentity()
 
 	// R06.4
 	execFuncs := map[*ssa.Function]bool{}
@@ -465,4 +495,71 @@ func (c *Ctx) timeoutListInvariant(rRemoval, rEncoding, rAccum string) {
 	}
 	r.Floor(rAccum, "accumulator updates under a lookup", nAcc, 4)
 
+}
+
+// timeoutListIdentity: R06.8 (contract side): add/remove of a timeout-list entry name the group record's id and height.
+func (c *Ctx) timeoutListIdentity() {
+	r := c.R
+	m := c.Contracts()
+	isGlobalKeyArg := func(fn *ssa.Function, v ssa.Value) bool {
+		for _, call := range core.Calls(fn) {
+			if !strings.HasSuffix(core.CalleeName(call), "contracts.GlobalTxInfoKey") {
+				continue
+			}
+			a := core.Arg(call, 0)
+			if sameValue(a, v) || core.Strip(a) == core.Strip(v) {
+				return true
+			}
+		}
+		return false
+	}
+	callersOf := func(target *ssa.Function) []ssa.CallInstruction {
+		var out []ssa.CallInstruction
+		for _, fn := range m.funcs {
+			for _, call := range core.Calls(fn) {
+				if core.StaticCallee(call) == target {
+					out = append(out, call)
+				}
+			}
+		}
+		return out
+	}
+	n := 0
+	for _, fn := range m.funcs {
+		if fn.Name() == "addToTimeoutList" || fn.Name() == "removeFromTimeoutList" {
+			continue
+		}
+		for _, call := range core.Calls(fn) {
+			cn := core.CalleeName(call)
+			if !strings.HasSuffix(cn, "TransactionManager).addToTimeoutList") && !strings.HasSuffix(cn, "TransactionManager).removeFromTimeoutList") {
+				continue
+			}
+			n++
+			h, id := core.Arg(call, 0), core.Arg(call, 1)
+			okID := isGlobalKeyArg(fn, id)
+			if !okID {
+				if p, isP := core.Strip(id).(*ssa.Parameter); isP {
+					// lifted: every caller passes the id of the group record
+					idx := -1
+					for i, q := range fn.Params {
+						if q == p {
+							idx = i
+						}
+					}
+					cs := callersOf(fn)
+					okID = idx >= 0 && len(cs) > 0
+					for _, cc := range cs {
+						if !isGlobalKeyArg(cc.Parent(), cc.Common().Args[idx]) {
+							okID = false
+						}
+					}
+				}
+			}
+			_, fld, _, okH := core.FieldOf(h)
+			key := shortFn(fn) + ": " + shortCallee(call)
+			r.Check(okID && okH && fld == "Height", "R06.8", key+fmt.Sprintf(" #%d", n), c.P.Pos(call.Pos()), "(txInfo.Height, id of the group record)",
+				"the timeout-list entry is added / removed under an id that is not the id of the group record (GlobalTxInfoKey argument) or with a height that is not the record's: the entry that was added is never the one removed, so a finished or failed group is rolled back at its timeout height (or a live one never is)")
+		}
+	}
+	r.Floor("R06.8", "timeout-list calls in the transaction manager", n, 3)
 }
